@@ -32,8 +32,13 @@ Polys(q, t) == IF Full(q, t) THEN [1..t -> 0..(q - 1)]
                ELSE {Unit(t, m, 1) : m \in 1..t} \cup {[i \in 1..t |-> q - 1]}
                     \cup {[i \in 1..t |-> Sample[s][i] % q] : s \in DOMAIN Sample}
 
-\* offsets by which one key is moved off the polynomial: all of them in the small fields, a few in the large one
-Offsets(q) == IF q <= 13 THEN 1..(q - 1) ELSE {1, 2, q - 1, (Sample[1][1] % (q - 1)) + 1}
+\* offsets by which one key is moved off the polynomial: all of them over GF(7) and for the sampled polynomials of GF(11), GF(13);
+\* 1 and -1 where EVERY polynomial of GF(11) / GF(13) is enumerated (the cross-check values are linear in the keys, so offset d on
+\* P behaves like offset 1 on P/d, which is enumerated as well); a few in the large field
+Offsets(q, t) == IF q = 7 THEN 1..(q - 1)
+                 ELSE IF Full(q, t) THEN {1, q - 1}
+                 ELSE IF q <= 13 THEN 1..(q - 1)
+                 ELSE {1, 2, q - 1, (Sample[1][1] % (q - 1)) + 1}
 
 Init == st \in {Blank} \cup {[k |-> "case", q |-> c[1], n |-> c[2], t |-> c[3], P |-> <<>>, lam |-> LagrangeTable(c[2], c[1])] : c \in Cases}
 
@@ -92,7 +97,7 @@ AcceptLaw == st.k = "poly" =>
 \* t-subset, so the check cannot see the deviation: inherent to the check, not a defect.
 DetectLaw == st.k = "poly" =>
   LET sh == Deal(st.P, st.n, st.q) IN
-  \A i \in 1..st.n : \A d \in Offsets(st.q) :
+  \A i \in 1..st.n : \A d \in Offsets(st.q, st.t) :
      ~Accepts(CrossValuesTab(Bump(sh, i, d, st.q), st.n, st.t, st.lam, st.q)) <=> st.t < st.n
 
 \* the table-based operators agree with the direct transcription (checked on the polynomial states of the smallest field only)
